@@ -461,6 +461,8 @@ fn raw_bad_connect_case(st: &mut Stats, seed: u64) {
     let kind = "raw-bad-connect";
     let live: u32 = rng.next() as u32 | 1;
     let order_zero_first = rng.chance(1, 2);
+    let with_bind = rng.chance(1, 2);
+    let bind_pos = rng.below(3) as usize;
     let end = sim::run(&sh, move |sh| async move {
         let (w0, w1, _net) = memws::pair(&sh, [0, 0], [None, None], true);
         let e0 = wl::endpoint(&sh, 0, &cfg, w0, seed);
@@ -469,9 +471,24 @@ fn raw_bad_connect_case(st: &mut Stats, seed: u64) {
         raw.send(&RefFrame::Connect { id: live, rwnd: 8, port: 7, host: b"s1.".to_vec() }).await;
         let mut s = e0.mux.accept_stream_channel().await.expect("accept");
         let acked = raw.drain().await;
+        // optionally the endpoint also has an unanswered bind request: its id is in use as well
+        let mut pend_bind = None;
+        let mut bind_id = None;
+        if with_bind {
+            let m = e0.mux.clone();
+            pend_bind = Some(sim::spawn(&sh, 7001, async move { m.request_bind(b"b7.", 9, penguin_mux::frame::BindType::Stream).await.map_err(|e| wl::err_name(&e)) }));
+            for g in raw.drain().await {
+                if let Got::Frame(RefFrame::Bind { id, .. }) = g {
+                    bind_id = Some(id);
+                }
+            }
+        }
         // the offending Connects
         let mut replies = Vec::new();
-        let bad = if order_zero_first { [0u32, live] } else { [live, 0u32] };
+        let mut bad = if order_zero_first { vec![0u32, live] } else { vec![live, 0u32] };
+        if let Some(b) = bind_id {
+            bad.insert(bind_pos.min(bad.len()), b);
+        }
         for id in bad {
             raw.send(&RefFrame::Connect { id, rwnd: 3, port: 1, host: b"s9.".to_vec() }).await;
             replies.push((id, raw.drain().await));
@@ -486,24 +503,47 @@ fn raw_bad_connect_case(st: &mut Stats, seed: u64) {
         let got_push = after.iter().any(|g| matches!(g, Got::Frame(RefFrame::Push { id, data }) if *id == live && data == b"yo"));
         // nothing must have been handed to the application for the rejected Connects
         let extra = tokio::time::timeout(Duration::from_millis(2), e0.mux.accept_stream_channel()).await.is_ok();
+        // the bind request is still answerable: the peer accepts it now
+        let mut bind_res = None;
+        if let (Some(b), Some(h)) = (bind_id, pend_bind) {
+            raw.send(&RefFrame::Finish { id: b }).await;
+            bind_res = Some(match tokio::time::timeout(Duration::from_millis(5), h).await {
+                Ok(Ok(Some(Ok(true)))) => "ok:true".to_string(),
+                Ok(Ok(Some(Ok(false)))) => "ok:false".to_string(),
+                Ok(Ok(Some(Err(e)))) => format!("err:{e}"),
+                Ok(_) => "task-failed".to_string(),
+                Err(_) => "pending".to_string(),
+            });
+        }
         drop(s);
         drop(e0.mux);
         raw.drain().await;
         raw.close().await;
         e0.task.await.ok();
-        (acked, replies, read_ok, matches!(wr, Ok(Ok(2))), got_push, extra)
+        (acked, replies, read_ok, matches!(wr, Ok(Ok(2))), got_push, extra, bind_id, bind_res)
     });
     let log = sh.take_log();
     match end {
-        sim::RunEnd::Finished((acked, replies, read_ok, wrote, got_push, extra)) => {
+        sim::RunEnd::Finished((acked, replies, read_ok, wrote, got_push, extra, bind_id, bind_res)) => {
             st.target("raw_bad_connect_runs", 1);
+            if with_bind {
+                match (&bind_id, &bind_res) {
+                    (Some(_), Some(r)) => {
+                        st.target("connect_on_pending_bind_id_runs", 1);
+                        if r != "ok:true" {
+                            viol(st, format!("pending-bind-disturbed|{r}|{kind}"), format!("a Connect carrying the id of an unanswered bind request was received and refused; the bind request, then accepted by the peer, resolved {r} instead of Ok(true)"), kind, seed, &log);
+                        }
+                    }
+                    _ => st.inconclusive.push(format!("c07 {kind} {seed}: Bind frame not seen")),
+                }
+            }
             if !acked.iter().any(|g| matches!(g, Got::Frame(RefFrame::Ack { id, .. }) if *id == live)) {
                 viol(st, format!("no-handshake-ack|{kind}"), "a valid Connect was not acknowledged".into(), kind, seed, &log);
             }
             for (id, rep) in &replies {
                 let resets = rep.iter().filter(|g| matches!(g, Got::Frame(RefFrame::Reset { id: i }) if i == id)).count();
                 let acks = rep.iter().filter(|g| matches!(g, Got::Frame(RefFrame::Ack { id: i, .. }) if i == id)).count();
-                let which = if *id == 0 { "zero" } else { "in-use" };
+                let which = if *id == 0 { "zero" } else if Some(*id) == bind_id { "in-use-by-bind" } else { "in-use" };
                 if resets != 1 || acks != 0 {
                     viol(st, format!("bad-connect-answer|{which}|{kind}"), format!("Connect with {which} id {id:x} was answered by {resets} Reset and {acks} Acknowledge frames (expected exactly one Reset): {rep:?}"), kind, seed, &log);
                 }
